@@ -1,0 +1,29 @@
+//go:build verif
+
+package transactions
+
+import "sort"
+
+// VerifIDs returns the message IDs with a stored transaction (verification hook).
+func (ts *TransactionStore) VerifIDs() []uint16 {
+	ts.RLock()
+	defer ts.RUnlock()
+	ids := make([]uint16, 0, len(ts.bypktID))
+	for id := range ts.bypktID {
+		ids = append(ids, id)
+	}
+	sort.Slice(ids, func(i, j int) bool { return ids[i] < ids[j] })
+	return ids
+}
+
+// VerifTypes returns the packet types with a stored transaction (verification hook).
+func (ts *TransactionStore) VerifTypes() []int {
+	ts.RLock()
+	defer ts.RUnlock()
+	ts2 := make([]int, 0, len(ts.bypktType))
+	for t := range ts.bypktType {
+		ts2 = append(ts2, int(t))
+	}
+	sort.Ints(ts2)
+	return ts2
+}
